@@ -485,6 +485,20 @@ impl Property for C08 {
     fn run(&self, case: &Case) -> CaseResult {
         run_case(case)
     }
+    fn known_signature(&self, case: &Case) -> Option<String> {
+        // open finding: TopK's dynamic filter compares struct keys with arrow's fixed nested-NULL
+        // order instead of the requested one (wrong for ASC NULLS LAST and DESC NULLS FIRST)
+        // VF_C08_NO_KNOWN=1 (used when verifying the proposed repair) switches the exclusion off
+        if std::env::var_os("VF_C08_NO_KNOWN").is_some() {
+            return None;
+        }
+        if let Op::Sort { fetch: Some(f), presorted, .. } = &case.op {
+            if *f >= 1 && (*presorted as usize) < case.keys.len() && case.keys.iter().any(|k| k.ty == ColType::StructI32Utf8 && k.desc == k.nulls_first) {
+                return Some("topk-filter:struct-key:child-null-order".into());
+            }
+        }
+        None
+    }
 }
 
 fn run_case(case: &Case) -> CaseResult {
